@@ -80,6 +80,8 @@ class Evaluator:
             kk0 = _canon_leaf(t)
             if kk0 in s.overrides:
                 return s.overrides[kk0]          # the point fixes the value of this very term (a size, a read result ...)
+        if k == 'b' and len(t) == 2 and t[1] in ('int', 'float', 'str', 'bytes', 'bool', 'tuple', 'slice'):
+            return {'int': int, 'float': float, 'str': str, 'bytes': bytes, 'bool': bool, 'tuple': tuple, 'slice': slice}[t[1]]      # the type object itself
         if k == 'c':
             if isinstance(t[1], (int, float)) and not isinstance(t[1], bool):
                 return t[1]
@@ -210,6 +212,11 @@ class Evaluator:
                 if all(x[0] == 'b' and x[1] in TYPES for x in tts):
                     return isinstance(s.ev(t[2][0]), tuple(TYPES[x[1]] for x in tts))
                 return s.leaf(t)
+            if name == 'type' and t[1] == ('b', 'type') and len(t[2]) == 1 and not t[3]:
+                v_ = s.ev(t[2][0])
+                if type(v_) in (int, float, str, bytes, bool, type(None), tuple, slice):
+                    return type(v_)               # compared with the builtin type names below (type(x) is str)
+                raise NotEvaluable(t)
             if name == 'slice' and t[1] == ('b', 'slice') and 1 <= len(t[2]) <= 3:
                 return slice(*[s.ev(a) for a in t[2]])
             if name == 'len' and t[1] == ('b', 'len') and len(t[2]) == 1 and _canon_leaf(t) not in s.overrides:
